@@ -73,6 +73,31 @@ M = [
   """                            R[s][a][s1] = val;""", """                            R[s1][a][s] = val;"""),
  ('M23 numeric declaration parsed with stoi-like truncation to 8 bits', F,
   """                return std::stoul(ids[0]);""", """                return std::stoul(ids[0]) & 0xff;"""),
+ ('M24 extractIDs: a single token must be a number (catch removed)', F,
+  """            try {
+                return std::stoul(ids[0]);
+            } catch (...) {}""", """            return std::stoul(ids[0]);"""),
+ ('M25 numbers are refused once names are declared', F,
+  """                const size_t val = std::stoul(str);
+                if (val >= max)""", """                if (!map.empty()) throw std::runtime_error("Unknown name");
+                const size_t val = std::stoul(str);
+                if (val >= max)"""),
+ ('M26 matrix rows stored bottom-up', F,
+  """                    for (const auto a : av)
+                        for (size_t i = 0; i < v.size(); ++i)
+                            M[d1][a][i] = v[i];
+                }
+                break;""", """                    for (const auto a : av)
+                        for (size_t i = 0; i < v.size(); ++i)
+                            M[D1 - 1 - d1][a][i] = v[i];
+                }
+                break;"""),
+ ('M27 a model is complete when states OR actions are declared', F,
+  """        if (!S || !A)
+            throw std::runtime_error("MDP definition is incomplete");""", """        if (!S && !A)
+            throw std::runtime_error("MDP definition is incomplete");"""),
+ ('M28 discount line ignored after the first one', F,
+  """            discount_ = std::stod(tokenize(line, ":").at(1));""", """            if (discount_ == 1.0) discount_ = std::stod(tokenize(line, ":").at(1));"""),
 ]
 sel = sys.argv[1:]
 for name, f, a, b in M:
